@@ -1,25 +1,29 @@
 #!/bin/sh
-# tools/seed_eval.sh <PID> <K> [tier]  -- confirm a sub-agent's seeded change in its scratch worktree, store it under
-# /verif/seeded/<PID>_<K>/, then run ./check <PID> against /repo with the patch applied and undo it.
-PID=$1; K=$2; TIER=${3:-quick}
-WT=/tmp/wt/$PID
-S=$WT/seeded_$K
-[ -f $S/patch.diff ] || { echo "no patch at $S"; exit 2; }
-cd $WT || exit 2
-git checkout -q -- mindsdb_sql sly
-PYTHONPATH=$WT /venv/bin/python $S/demo.py >/tmp/seed_demo_clean.out 2>&1; RC_CLEAN=$?
-git apply $S/patch.diff || { echo "patch does not apply in worktree"; exit 2; }
-/venv/bin/python -m pytest -q -p no:cacheprovider -x >/tmp/seed_tests.out 2>&1; RC_TESTS=$?
-PYTHONPATH=$WT /venv/bin/python $S/demo.py >/tmp/seed_demo_patched.out 2>&1; RC_PATCHED=$?
-git checkout -q -- mindsdb_sql sly
-echo "confirm: demo clean rc=$RC_CLEAN, tests with patch rc=$RC_TESTS ($(tail -1 /tmp/seed_tests.out)), demo patched rc=$RC_PATCHED"
-mkdir -p /verif/seeded/${PID}_$K
-cp $S/patch.diff $S/demo.py $S/meta.json /verif/seeded/${PID}_$K/
+# tools/seed_eval.sh <PID>_<K> [tier] -- confirm a stored seeded change in a scratch worktree of /repo HEAD
+# (tests green with it, demo passes without / fails with), then run ./check <PID> against /repo with the patch
+# applied and undo it.  Uses patch_rebased.diff when present.
+ID=$1; TIER=${2:-quick}; PID=${ID%%_*}
+D=/verif/seeded/$ID
+P=$D/patch.diff; [ -f $D/patch_rebased.diff ] && P=$D/patch_rebased.diff
+WT=/tmp/wt_eval_$ID
 cd /repo || exit 2
 git diff --quiet || { echo "/repo not clean"; exit 2; }
-git apply $S/patch.diff || { echo "patch does not apply to /repo HEAD"; exit 3; }
-cd /verif && ./check $PID --tier $TIER > /tmp/seed_check_${PID}_$K.out 2>&1; RC=$?
-cd /repo && git checkout -q -- . 
-echo "check $PID ($TIER) on patched /repo: rc=$RC"
-grep -E "^VIOLATION|signature:|MACHINERY" /tmp/seed_check_${PID}_$K.out | head -8
-echo "{\"confirm\": {\"demo_clean_rc\": $RC_CLEAN, \"tests_with_patch_rc\": $RC_TESTS, \"demo_patched_rc\": $RC_PATCHED}, \"check_rc\": $RC, \"tier\": \"$TIER\"}" > /verif/seeded/${PID}_$K/result.json
+git worktree add -q --detach $WT HEAD || exit 2
+cd $WT
+PYTHONPATH=$WT /venv/bin/python $D/demo.py >/tmp/seed_demo_clean.out 2>&1; RC_CLEAN=$?
+if git apply $P 2>/dev/null; then
+  /venv/bin/python -m pytest -q -p no:cacheprovider -x >/tmp/seed_tests.out 2>&1; RC_TESTS=$?
+  PYTHONPATH=$WT /venv/bin/python $D/demo.py >/tmp/seed_demo_patched.out 2>&1; RC_PATCHED=$?
+  APPLIES=1
+else
+  APPLIES=0; RC_TESTS=-1; RC_PATCHED=-1
+fi
+cd /repo && git worktree remove --force $WT
+echo "$ID confirm: applies=$APPLIES demo clean rc=$RC_CLEAN, tests with patch rc=$RC_TESTS ($(tail -1 /tmp/seed_tests.out 2>/dev/null)), demo patched rc=$RC_PATCHED"
+[ $APPLIES = 1 ] || { echo "patch does not apply to HEAD (needs patch_rebased.diff)"; exit 3; }
+git apply $P || exit 3
+cd /verif && ./check $PID --tier $TIER > /tmp/seed_check_$ID.out 2>&1; RC=$?
+cd /repo && git checkout -q -- .
+echo "$ID: check $PID ($TIER) on patched /repo: rc=$RC"
+grep -E "^VIOLATION|signature:|MACHINERY" /tmp/seed_check_$ID.out | head -6
+echo "{\"confirm\": {\"demo_clean_rc\": $RC_CLEAN, \"tests_with_patch_rc\": $RC_TESTS, \"demo_patched_rc\": $RC_PATCHED}, \"check_rc\": $RC, \"tier\": \"$TIER\", \"patch\": \"$(basename $P)\"}" > $D/result.json
